@@ -130,6 +130,21 @@ def assumptions(pid):
                 cmd='coqc -Q theories Cstl theories/Properties_%s.v (after make in coq/)' % pid)
 
 
+def coqchk(pid):
+    """Independent re-check of Properties_<pid>.vo and everything it depends on (thorough tier).
+    -> (ok, summary text incl. the axioms coqchk lists)"""
+    t0 = time.time()
+    rc, out = sh(['timeout', '1500', 'coqchk', '-silent', '-o', '-Q', 'theories', 'Cstl', 'Cstl.Properties_%s' % pid],
+                 cwd=COQ, timeout=1600)
+    tail = out[-3000:]
+    ax = []
+    m = re.search(r'\* Axioms:(.*?)(\n\* |\Z)', out, flags=re.S)
+    if m:
+        ax = [l.strip() for l in m.group(1).splitlines() if l.strip()]
+    return rc == 0, dict(ok=(rc == 0), wall_s=round(time.time() - t0, 1), axioms_listed=ax,
+                         tail=tail if rc else tail[-600:])
+
+
 def build_runner():
     """Extract the models (ExtrOcamlBasic only) and build the OCaml runner."""
     d = os.path.join(BUILD, 'ocaml')
